@@ -202,7 +202,7 @@ func c19DrawOp(t *rapid.T, label string, sess int) c19Op {
 	kinds := []string{"REQ", "REQ", "REQ", "CLOSE", "CLOSE", "COUNT", "EVENT", "EVENT", "AUTH",
 		"SRV-EOSE", "SRV-EVENT", "SRV-NOTICE", "SRV-OK", "SRV-AUTH", "SRV-COUNT", "SRV-CLOSED", "SRV-CLOSED"}
 	op := c19Op{Sess: sess, Kind: rapid.SampledFrom(kinds).Draw(t, label+"op")}
-	op.ID = rapid.SampledFrom([]string{"a", "b", "c"}).Draw(t, label+"id")
+	op.ID = rapid.SampledFrom([]string{"a", "b", "c", ""}).Draw(t, label+"id")
 	if op.Kind == "EVENT" || op.Kind == "AUTH" {
 		op.K = rapid.SampledFrom([]int64{0, 1, 1, 7, 30000, 65535, 65536, 65537, 70000, 4464, -1}).Draw(t, label+"k")
 	}
@@ -417,5 +417,81 @@ func TestC19Concurrent(t *testing.T) {
 		}
 		col.Label("mode:concurrent")
 		col.Case(model.sawReRe && model.sawSrvC && model.sawEnd, hx.JSON(scripts), func() any { return desc })
+	})
+}
+
+// TestC19ParallelDirections: within ONE session the client's message and the
+// handler's message about the same subscription cross the middleware at the same
+// moment (the client gives a subscription up while the relay ends it). Whatever
+// the order, the subscription is over afterwards; pairs whose outcome depends on
+// the order are followed by a serial CLOSE before the gauges are compared.
+func TestC19ParallelDirections(t *testing.T) {
+	col := ev.For("C19").SetRule(c19Rule)
+	rapid.Check(t, func(t *rapid.T) {
+		reg := prometheus.NewRegistry()
+		mw := mocprom.NewPrometheusMiddleware(reg)
+		rig := NewRig(func(h mocrelay.Handler) mocrelay.Handler { return mocrelay.Middleware(mw)(h) })
+		model := newPromModel()
+		s, err := rig.Start()
+		if err != nil {
+			hx.Fail(t, ev.Failure{Property: "C19", Signature: "session-start", Clause: "a session starts", Observed: err.Error()})
+		}
+		defer s.End()
+		model.conns++
+		model.open[0] = map[string]bool{}
+		rounds := rapid.IntRange(50, 400).Draw(t, "rounds")
+		pairs := rapid.SliceOfN(rapid.SampledFrom([]string{"CLOSE||CLOSED", "CLOSE||CLOSED", "CLOSE||CLOSED-other", "REQ||CLOSED", "CLOSE||EOSE"}), 1, 4).Draw(t, "pairs")
+		ids := rapid.SliceOfN(rapid.SampledFrom([]string{"a", "b", ""}), 1, 3).Draw(t, "ids")
+		desc := map[string]any{"mode": "parallel-directions", "rounds": rounds, "pairs": pairs, "ids": ids}
+		failf := func(round int, sig, clause, obs string) {
+			desc["failed_round"] = round
+			hx.Fail(t, ev.Failure{Property: "C19", Signature: sig, Clause: clause, Case: desc, Observed: obs})
+		}
+		serial := func(round int, op c19Op) {
+			if _, _, err := s.Step(c19ClientMsg(op)); err != nil {
+				failf(round, "stalled", "client messages pass the middleware", err.Error())
+			}
+			model.applyClient(0, op)
+		}
+		for r := 0; r < rounds; r++ {
+			id := ids[r%len(ids)]
+			pair := pairs[r%len(pairs)]
+			serial(r, c19Op{Kind: "REQ", ID: id})
+			cop := c19Op{Kind: "CLOSE", ID: id}
+			sop := c19Op{Kind: "SRV-CLOSED", ID: id}
+			switch pair {
+			case "CLOSE||CLOSED-other":
+				sop.ID = id + "x"
+			case "REQ||CLOSED":
+				cop.Kind = "REQ"
+			case "CLOSE||EOSE":
+				sop.Kind = "SRV-EOSE"
+			}
+			cm, sm := c19ClientMsg(cop), c19ServerMsg(sop)
+			fwd, got, err := s.Both(cm, sm)
+			if err != nil {
+				failf(r, "stalled", "messages of both directions pass the middleware", err.Error())
+			}
+			if len(fwd) != 1 || fwd[0] != cm || len(got) != 1 || got[0] != sm {
+				failf(r, "msg-altered", "every message passes through unaltered", fmt.Sprintf("forwarded=%s received=%s", hx.JSON(briefClients(fwd)), hx.JSON(briefServers(got))))
+			}
+			// either order is a legal serialisation; where they differ, settle it
+			model.applyClient(0, cop)
+			model.applyServer(0, sop)
+			if pair == "REQ||CLOSED" {
+				serial(r, c19Op{Kind: "CLOSE", ID: id})
+			}
+			if why := model.compare(reg); why != "" {
+				failf(r, "metrics-mismatch-parallel", "at a quiescent point the exported values equal reality, also when a CLOSE from the client and a CLOSED from the handler for the same subscription cross at the same moment", pair+" on "+strconv.Quote(id)+": "+why)
+			}
+		}
+		s.End()
+		model.conns--
+		delete(model.open, 0)
+		if why := model.compare(reg); why != "" {
+			failf(rounds, "metrics-mismatch-at-end", "after the session ended the gauges are back to zero", why)
+		}
+		col.Label("mode:parallel-directions")
+		col.Case(true, hx.JSON(desc), func() any { return desc })
 	})
 }
